@@ -41,6 +41,8 @@ fn to_rot_f64(d: &mut Draw) -> Outcome {
     // cos of the float angle itself are what every representation must be built from)
     let ang = |d: &mut Draw| match d.int(0, 7) {
         0 => (d.int(-8, 8) as f64) * std::f64::consts::FRAC_PI_2,
+        // within 1e-12 .. 1e-3 of a quarter-turn multiple: sin rounds to +-1 long before cos is negligible
+        4 => (d.int(-8, 8) as f64) * std::f64::consts::FRAC_PI_2 + d.f64_slog(1e-12, 1e-3),
         1 => d.f64_slog(7.0, 1e12),
         2 => d.f64_slog(1e-14, 1e-3),
         _ => d.f64_in(-7.0, 7.0),
